@@ -134,7 +134,7 @@ impl Property for P {
         prop_oneof![2 => ctor, 3 => session].boxed()
     }
     fn cases(&self, tier: Tier) -> u32 {
-        tier.pick(3000, 30000)
+        tier.pick(10000, 100000)
     }
     fn sweeps(&self, _tier: Tier) -> Vec<(String, Vec<Case>)> {
         let mut grid = Vec::new();
